@@ -497,7 +497,7 @@ func (res *Result) Case(gkey string) (string, map[string]int) {
 				continue
 			}
 			if k, ok := lastFor[r.I]; ok {
-				evs[k].outs = append(evs[k].outs, vh.App("OLog", vh.Nat(r.I), res.hashIDs(r.Firing), res.hashIDs(r.Resolved)))
+				evs[k].outs = append(evs[k].outs, vh.App("OLog", vh.Nat(r.I), res.hashIDs(r.Firing), res.hashIDs(r.Resolved), vh.Z(r.T)))
 			}
 			stats["log"]++
 		case "flushend":
@@ -546,5 +546,359 @@ func (sc *Scenario) Fix() {
 	}
 }
 
-// MonitorC04 is the direct oracle for C04 on the implementation's observations (placeholder, extended below).
-func MonitorC04(res *Result) []vh.Violation { return nil }
+
+// ---------- direct oracles on the implementation's observations (independent of the Coq model) ----------
+
+type FlushObs struct {
+	GKey       string
+	Tau, T     int64 // notify.Now(ctx), clock at flush start
+	TEnd       int64
+	Ended      bool
+	Ok         bool
+	Alerts     []sim.AlertObs
+	Suppressed []bool
+	Notifies   []sim.Rec
+	Logs       []sim.Rec
+}
+
+// Flushes groups the raw records by flush, per group key, in order.
+func (res *Result) Flushes() map[string][]*FlushObs {
+	out := map[string][]*FlushObs{}
+	cur := map[string]*FlushObs{}
+	for _, r := range res.Recs {
+		switch r.Kind {
+		case "flush":
+			f := &FlushObs{GKey: r.GKey, Tau: r.Tau, T: r.T, Alerts: r.Alerts, Suppressed: r.Suppressed}
+			out[r.GKey] = append(out[r.GKey], f)
+			cur[r.GKey] = f
+		case "notify":
+			if f := cur[r.GKey]; f != nil {
+				f.Notifies = append(f.Notifies, r)
+			}
+		case "log":
+			if f := cur[r.GKey]; f != nil {
+				f.Logs = append(f.Logs, r)
+			}
+		case "flushend":
+			if f := cur[r.GKey]; f != nil {
+				f.TEnd, f.Ended, f.Ok = r.T, true, r.Ok
+			}
+		}
+	}
+	return out
+}
+
+func (res *Result) ids(hs []uint64) map[int]bool {
+	m := map[int]bool{}
+	for _, h := range hs {
+		m[res.Hash[h]] = true
+	}
+	return m
+}
+
+func subsetOf(a, b map[int]bool) bool {
+	for k := range a {
+		if !b[k] {
+			return false
+		}
+	}
+	return true
+}
+
+func (res *Result) gcBetween(t1, t2 int64) bool {
+	for _, g := range res.GCs {
+		if g >= t1 && g <= t2 {
+			return true
+		}
+	}
+	return false
+}
+
+// post-suppression firing / resolved id sets of a flush
+func (res *Result) post(f *FlushObs) (firing, resolved map[int]bool) {
+	firing, resolved = map[int]bool{}, map[int]bool{}
+	for k, a := range f.Alerts {
+		if f.Suppressed[k] {
+			continue
+		}
+		if a.Resolved {
+			resolved[res.idOf(a.Labels)] = true
+		} else {
+			firing[res.idOf(a.Labels)] = true
+		}
+	}
+	return
+}
+
+type lastLog struct {
+	T                int64
+	Firing, Resolved map[int]bool
+}
+
+// Monitor evaluates the clauses of C01, C04 and C05 directly on what the instance did. which selects the property.
+func Monitor(res *Result, which string) []vh.Violation {
+	var out []vh.Violation
+	add := func(key, what string) { out = append(out, vh.Violation{Key: key, What: what, Case: res.Sc}) }
+	fl := res.Flushes()
+	keys := make([]string, 0, len(fl))
+	for k := range fl {
+		keys = append(keys, k)
+	}
+	sort.Strings(keys)
+	for _, gk := range keys {
+		g := res.Groups[gk]
+		if g == nil {
+			add("flush-of-unknown-group", "a flush carried a group key that routing + group_by do not produce: "+gk)
+			continue
+		}
+		last := map[int]*lastLog{} // integration -> last log write
+		var prev *FlushObs
+		for _, f := range fl[gk] {
+			firing, resolved := res.post(f)
+			// ---- timing between consecutive flushes of one group incarnation (C04 / C01) ----
+			if prev != nil && prev.Ended && (which == "C04" || which == "C01") {
+				destroyedMaybe := prev.Ok
+				if !destroyedMaybe {
+					due := prev.T + g.GI
+					if f.Tau != due {
+						add("flush-tick-not-at-deadline", fmt.Sprintf("group %s: tick value %d, armed deadline %d", gk, f.Tau, due))
+					}
+					lim := due
+					if prev.TEnd > lim {
+						lim = prev.TEnd
+					}
+					if f.T > lim {
+						add("flush-late", fmt.Sprintf("group %s: flush started at %d, due by %d", gk, f.T, lim))
+					}
+				}
+			}
+			if f.Ended && f.TEnd > f.T+g.Timeout+res.Wait && (which == "C01" || which == "C04") {
+				add("flush-outlives-deadline", fmt.Sprintf("group %s: flush ran from %d to %d, limit %d", gk, f.T, f.TEnd, g.Timeout))
+			}
+			for i, ij := range g.Ints {
+				L := last[i]
+				if L != nil && (res.gcBetween(L.T, f.TEnd) || f.T-L.T >= res.Sc.Retention || f.T-L.T >= 2*g.RI && g.RI > 0) {
+					L = nil // the entry may have expired / been collected: not judged (C10 covers the log itself)
+					if last[i] != nil {
+						last[i] = nil
+					}
+					continue
+				}
+				var notifs []sim.Rec
+				for _, n := range f.Notifies {
+					if n.I == i {
+						notifs = append(notifs, n)
+					}
+				}
+				var logs []sim.Rec
+				for _, l := range f.Logs {
+					if l.I == i {
+						logs = append(logs, l)
+					}
+				}
+				reached := len(firing)+len(resolved) > 0 // the batch reached the receiver stage
+				// ---- C05: what a notification may list ----
+				if which == "C05" {
+					for _, n := range notifs {
+						for _, a := range n.Alerts {
+							if a.Resolved && !ij.SendResolved {
+								add("resolved-listed-with-send-resolved-off", fmt.Sprintf("group %s integration %d", gk, i))
+							}
+							if a.Resolved && (a.Ends == 0 || a.Ends > f.T) {
+								add("resolved-listed-early", fmt.Sprintf("group %s: alert listed resolved at flush %d but ends at %d", gk, f.T, a.Ends))
+							}
+						}
+					}
+					// prompt: a told-firing alert, now resolved and unsuppressed, is sent as resolved at this flush
+					if ij.SendResolved && L != nil && reached {
+						for id := range resolved {
+							if L.Firing[id] && !L.Resolved[id] {
+								ok := false
+								for _, n := range notifs {
+									for _, a := range n.Alerts {
+										if res.idOf(a.Labels) == id && a.Resolved {
+											ok = true
+										}
+									}
+								}
+								if !ok {
+									add("resolved-not-reported-at-next-flush", fmt.Sprintf("group %s integration %d alert %d", gk, i, id))
+								}
+							}
+						}
+					}
+				}
+				// ---- C01: a firing unsuppressed alert the receiver has not been told about is sent ----
+				if which == "C01" && reached {
+					for id := range firing {
+						if L == nil || !L.Firing[id] {
+							ok := false
+							for _, n := range notifs {
+								for _, a := range n.Alerts {
+									if res.idOf(a.Labels) == id && !a.Resolved {
+										ok = true
+									}
+								}
+							}
+							if !ok {
+								add("firing-alert-not-sent", fmt.Sprintf("group %s integration %d alert %d not attempted at flush %d", gk, i, id, f.T))
+							}
+						}
+					}
+					for _, n := range notifs {
+						if n.Outcome == sim.OK {
+							found := false
+							for _, l := range logs {
+								if l.T >= n.T {
+									found = true
+									lf := res.ids(l.Firing)
+									for _, a := range n.Alerts {
+										if !a.Resolved && !lf[res.idOf(a.Labels)] {
+											add("success-not-recorded", fmt.Sprintf("group %s integration %d: sent firing alert missing from the log write", gk, i))
+										}
+									}
+								}
+							}
+							if !found {
+								add("success-not-recorded", fmt.Sprintf("group %s integration %d: successful send without log write", gk, i))
+							}
+						}
+					}
+				}
+				// ---- C04: a notification needs one of the property's reasons; a due repeat is not skipped ----
+				if which == "C04" && reached {
+					due := false
+					if L == nil {
+						due = len(firing) > 0
+					} else {
+						due = !subsetOf(firing, L.Firing) || (len(firing) == 0 && len(L.Firing) > 0) ||
+							(ij.SendResolved && len(firing) > 0 && !subsetOf(resolved, L.Resolved)) ||
+							(len(firing) > 0 && L.T < f.Tau-g.RI)
+					}
+					attempted := len(notifs) > 0 || len(logs) > 0
+					if attempted && !due {
+						add("unjustified-notification", fmt.Sprintf("group %s integration %d flush %d: nothing changed and repeat_interval has not elapsed", gk, i, f.T))
+					}
+					if due && !attempted {
+						add("due-notification-skipped", fmt.Sprintf("group %s integration %d flush %d: change or elapsed repeat_interval but no attempt", gk, i, f.T))
+					}
+					if len(firing) == 0 && len(notifs) > 0 && (L == nil || len(L.Firing) == 0) {
+						add("no-firing-notification-without-prior-firing", fmt.Sprintf("group %s integration %d", gk, i))
+					}
+				}
+				// ---- C20-ish / all: a log write only right after a successful send (or the empty-firing bookkeeping) ----
+				for _, l := range logs {
+					okBefore := false
+					for _, n := range notifs {
+						if n.Outcome == sim.OK && n.T <= l.T {
+							okBefore = true
+						}
+					}
+					if !okBefore && !(len(l.Firing) == 0 && !ij.SendResolved) {
+						add("log-without-successful-send", fmt.Sprintf("group %s integration %d", gk, i))
+					}
+					last[i] = &lastLog{T: l.T, Firing: res.ids(l.Firing), Resolved: res.ids(l.Resolved)}
+				}
+			}
+			prev = f
+		}
+	}
+	// ---- C01: every firing alert gets a flush of each of its groups within max(group_wait, group_interval) + slack ----
+	if which == "C01" {
+		for _, r := range res.Recs {
+			if r.Kind != "publish" {
+				continue
+			}
+			a := r.Alerts[0]
+			if a.Resolved {
+				continue
+			}
+			for _, gk := range res.member[res.idOf(a.Labels)] {
+				g := res.Groups[gk]
+				bound := g.GW
+				if g.GI > bound {
+					bound = g.GI
+				}
+				bound += g.Timeout + res.Wait
+				if r.T+bound >= res.TEnd {
+					continue
+				}
+				ok := false
+				for _, f := range fl[gk] {
+					if f.T >= r.T && f.T <= r.T+bound {
+						ok = true
+					}
+				}
+				if !ok {
+					add("no-flush-within-bound", fmt.Sprintf("group %s: alert published at %d, no flush within %d", gk, r.T, bound))
+				}
+			}
+		}
+	}
+	// ---- C05: an alert that fires again during the delivery of its resolved notification is not lost ----
+	if which == "C05" {
+		for _, r := range res.Recs {
+			if r.Kind != "publish" || r.Alerts[0].Resolved {
+				continue
+			}
+			id := res.idOf(r.Alerts[0].Labels)
+			for _, gk := range res.member[id] {
+				g := res.Groups[gk]
+				fs := fl[gk]
+				for k, f := range fs {
+					if !(f.Ended && f.T < r.T && r.T <= f.TEnd) {
+						continue
+					}
+					listedResolved := false
+					for _, a := range f.Alerts {
+						if res.idOf(a.Labels) == id && a.Resolved {
+							listedResolved = true
+						}
+					}
+					if !listedResolved || f.TEnd+g.GI+g.Timeout >= res.TEnd {
+						continue
+					}
+					// a later publish of the same alert would make this one moot: only judge if it is the last before the next flush
+					superseded := false
+					for _, r2 := range res.Recs {
+						if r2.Kind == "publish" && r2.T > r.T && res.idOf(r2.Alerts[0].Labels) == id {
+							superseded = true
+						}
+					}
+					if superseded {
+						continue
+					}
+					ok := false
+					if k+1 < len(fs) {
+						for _, a := range fs[k+1].Alerts {
+							if res.idOf(a.Labels) == id {
+								ok = true
+							}
+						}
+					}
+					if !ok {
+						add("refire-during-delivery-lost", fmt.Sprintf("group %s alert %d re-fired at %d during the flush [%d,%d] and is missing from the next flush", gk, id, r.T, f.T, f.TEnd))
+					}
+				}
+			}
+		}
+	}
+	return out
+}
+
+// MonitorC04 is kept for the C04 harness.
+func MonitorC04(res *Result) []vh.Violation { return Monitor(res, "C04") }
+
+// Fix recomputes derived fields after JSON decoding (replay).
+func (sc *Scenario) Fix() {
+	p := func(s string) int64 {
+		d, err := model.ParseDuration(s)
+		if err != nil {
+			return 0
+		}
+		return int64(d)
+	}
+	if sc.GWs != "" {
+		sc.GW, sc.GI, sc.RI = p(sc.GWs), p(sc.GIs), p(sc.RIs)
+	}
+}
